@@ -693,9 +693,12 @@ class Mesh:
             _, ixa, ixb = np.unique(pT.view([('', pT.dtype)] * pT.shape[1]),
                                     return_index=True, return_inverse=True)
             p = p[:, ixa]
+            # the points of each mesh follow those of all the previous ones
+            offsets = np.cumsum([self.p.shape[1]]
+                                + [mesh.p.shape[1] for mesh in other[:-1]])
             return [
                 cls(p, self._squeeze_if(ixb[self.t])),
-                *[type(m)(p, self._squeeze_if(ixb[m.t + self.p.shape[1]]))
+                *[type(m)(p, self._squeeze_if(ixb[m.t + offsets[i]]))
                   for i, m in enumerate(other)],
             ]
         raise NotImplementedError
